@@ -1170,6 +1170,11 @@ func (d *c19Dyn) arithJob(fi *FuncInfo, onlySub, onlyIdx int) (nSub, nIdx int) {
 			c.okTrivial("C19.c", fi.Name+"/"+name+" within bounds", ie.Pos(), "the index is the key of the enclosing range over the same slice")
 			continue
 		}
+		if rev := c19InReversal(info, d.p.parents, ie); rev != nil {
+			// the loop is verified to be exactly an in-place reversal (c19o.go): its shape is the proof
+			c.okTrivial("C19.c", fi.Name+"/"+name+" within bounds", ie.Pos(), "index of the swap of a %s reversal loop over the same slice: 0 <= low index < high index <= len-1 is the invariant of a loop of exactly this shape (counters start at the ends, move towards each other by one, the body only swaps)", rev.form)
+			continue
+		}
 		ig := idxGoal{h: h, name: name}
 		c19With(h.sn.fr, func() {
 			il := c19LinOf(info, ie.Index)
